@@ -34,3 +34,6 @@ CLAIMS = {
                      "an owner holding less than N*f makes the invocation FAULT and a FAULT changes nothing. Correspondence run + monitor on committees of 1, 4, 7.",
                 note=NOTE, technique=TECH),
 }
+
+for _p in PROPS.values():
+    _p.setdefault("cover_files", ['contracts/container/', 'common/transfer.go'])
